@@ -275,6 +275,36 @@ def eval_rpms(case):
     return (fails + f2)[:6]
 
 
+# ------------------------------------------------------------------ pre-productmd product families
+# what a pre-productmd 'family' becomes (name, short): the table of the legacy reader at the pinned commit, frozen here
+FAMILIES = {"Red Hat Enterprise Linux": ("Red Hat Enterprise Linux", "RHEL"), "Red Hat Enterprise Linux Server": ("Red Hat Enterprise Linux", "RHEL"),
+            "Subscription Asset Manager": ("Subscription Asset Manager", "SAM"), "Red Hat Storage": ("Red Hat Storage", "RHS"),
+            "Red Hat Storage Software Appliance": ("Red Hat Storage Software Appliance", "SSA"), "JBEAP": ("JBEAP", "JBEAP"),
+            "Fedora": ("Fedora", "Fedora"), "Fedora-Rawhide": ("Fedora", "Fedora"), "CentOS Linux": ("CentOS", "CentOS"),
+            "EulerOS V2.0": ("EulerOS", "EulerOS"), "Some Other OS": ("Some Other OS", ""), "Red Hat Storage Console": ("Red Hat Storage Console", ""),
+            "JBEAP Extras": ("JBEAP Extras", "")}
+
+
+def eval_family(case):
+    from productmd.treeinfo import TreeInfo
+    family = case["family"]
+    text = "[general]\nfamily = %s\nversion = 7.1\narch = x86_64\nvariant = Server\ntimestamp = 1386857206.0\npackagedir = Packages\n" % family
+    what = "pre-productmd treeinfo of family %r" % family
+    t = TreeInfo()
+    try:
+        t.loads(text)
+    except Exception as exc:
+        return ["%s: rejected: %s: %s" % (what, type(exc).__name__, exc)]
+    name, short = FAMILIES[family]
+    fails = []
+    if (t.release.name, t.release.short) != (name, short):
+        fails.append("%s: upgraded to release name %r / short %r, the family table says %r / %r" % (what, t.release.name, t.release.short, name, short))
+    if not short:
+        return fails            # without a short name the tree cannot be written (not part of the mapping)
+    f2, _ = idempotence(TreeInfo, t, what, "productmd.treeinfo")
+    return fails + f2
+
+
 # ------------------------------------------------------------------ treeinfo
 
 def eval_treeinfo(case):
@@ -518,11 +548,14 @@ def run(ctx):
     probe(ctx, eval_treeinfo, cases, "treeinfo")
     ctx.evaluate(eval_treeinfo, cases, label="treeinfo-upgrade", chunk=100, key=lambda c: core._digest([c["obj"], c["ver"], c["rot"]]))
     ctx.evaluate(eval_fixture, fixtures(), label="fixture", chunk=10)
+    ctx.evaluate(eval_family, [{"family": f} for f in sorted(FAMILIES)], label="family", chunk=20)
     ctx.exhaustive = True
 
 
 def replay(info):
     k = info["kind"]
+    if k == "family":
+        return eval_family(info["case"])
     if k == "rpms-history":
         return rpms_adapter.replay(info["case"])
     if k == "history":
